@@ -332,6 +332,20 @@ pub fn run(ctx: &Ctx) -> i32 {
         let iters = (0..4).map(|k| Iter { batch: if k == 2 { (batch + 1) % 4 } else { batch }, xseed: i * 10 + k, target_mode: (k % 2 == 0) as u8, extra_forward: k == 1, probe_forward_after: k == 0 && i % 2 == 0 }).collect();
         Some(Case14 { specs: vec![LayerSpec::Dense { input, output, act: Act::None }], rows: 1, cols: 1, cost: CostKind::Mse, lr, pseed: i + 3, int_data: true, iters })
     }));
+    // two stacked conv layers, the second with every filter shape 1..3 x 1..3 and stride 1..2 x 1..2 (windows that
+    // overlap along both axes, one axis, or not at all) and at least two windows along each axis
+    st.merge(ctx.run_indexed("stacked-conv-all-filter-and-stride-shapes", 9 * 4 * 2 * 2 * 2, None, |i| {
+        let (fr2, fc2) = (1 + (i % 3) as usize, 1 + ((i / 3) % 3) as usize);
+        let (sr2, sc2) = (1 + ((i / 9) % 2) as usize, 1 + ((i / 18) % 2) as usize);
+        let f1 = 1 + ((i / 36) % 2) as usize;
+        let batch = if (i / 72) % 2 == 0 { 0 } else { 2 };
+        let act = if (i / 144) % 2 == 0 { Act::None } else { Act::Sigmoid };
+        // the first layer's output has (fr2 + sr2) x (fc2 + sc2 + 1) positions: two windows down, two or three across
+        let (rows, cols) = (fr2 + sr2 + f1 - 1, fc2 + sc2 + 1 + f1 - 1);
+        let specs = vec![LayerSpec::Conv { count: 2, depth: 1, fr: f1, fc: f1, sr: 1, sc: 1, act }, LayerSpec::Conv { count: 1, depth: 2, fr: fr2, fc: fc2, sr: sr2, sc: sc2, act: Act::None }];
+        let iters = (0..3).map(|k| Iter { batch: if k == 1 { batch } else { 2 - batch }, xseed: i * 10 + k, target_mode: (k % 2) as u8, extra_forward: false, probe_forward_after: false }).collect();
+        Some(Case14 { specs, rows, cols, cost: CostKind::Mse, lr: [0.5, 0.125][(i % 2) as usize], pseed: i + 11, int_data: act == Act::None, iters })
+    }));
     finish(
         ctx,
         st,
